@@ -185,7 +185,8 @@ fn shrink(t: &[String]) -> Vec<Vec<String>> {
     for lines in shrink_vec(&c.lines) { out.push(C { lines, ..c.clone() }); }
     for frags in shrink_vec(&c.frags) { out.push(C { frags, ..c.clone() }); }
     if !c.frags.is_empty() { out.push(C { frags: vec![], ..c.clone() }); }
-    out.into_iter().map(|c| enc(&c)).collect()
+    // a source that answers every read with `Interrupted` never makes progress (std retries forever): not a legal input
+    out.into_iter().filter(|c| c.frags.is_empty() || c.frags.iter().any(|x| *x != 0)).map(|c| enc(&c)).collect()
 }
 
 fn gen(rng: &mut Rng, tier: Tier) -> Vec<Case> {
